@@ -256,11 +256,14 @@ func (e *Engine) onInterest(args ndn.InterestHandlerArgs) {
 }
 
 func (e *Engine) onData(pkt *spec.Data, sigCovered enc.Wire, raw enc.Wire, pitToken []byte) {
+	// The callbacks are invoked after the PIT lock is released: a callback may call Express.
+	satisfied := make([]*pendInt, 0)
+
 	e.pitLock.Lock()
-	defer e.pitLock.Unlock()
 
 	n := e.pit.PrefixMatch(pkt.NameV)
 	if n == nil {
+		e.pitLock.Unlock()
 		e.log.WithField("name", pkt.NameV.String()).Warn("Received Data for an unknown interest. Drop.")
 		return
 	}
@@ -299,14 +302,7 @@ func (e *Engine) onData(pkt *spec.Data, sigCovered enc.Wire, raw enc.Wire, pitTo
 			if entry.callback == nil {
 				panic("[BUG] PIT has empty entry")
 			}
-
-			entry.callback(ndn.ExpressCallbackArgs{
-				Result:     ndn.InterestResultData,
-				Data:       pkt,
-				RawData:    raw,
-				SigCovered: sigCovered,
-				NackReason: spec.NackReasonNone,
-			})
+			satisfied = append(satisfied, entry)
 		}
 
 		cur.SetValue(newList)
@@ -315,6 +311,18 @@ func (e *Engine) onData(pkt *spec.Data, sigCovered enc.Wire, raw enc.Wire, pitTo
 	n.DeleteIf(func(lst []*pendInt) bool {
 		return len(lst) == 0
 	})
+
+	e.pitLock.Unlock()
+
+	for _, entry := range satisfied {
+		entry.callback(ndn.ExpressCallbackArgs{
+			Result:     ndn.InterestResultData,
+			Data:       pkt,
+			RawData:    raw,
+			SigCovered: sigCovered,
+			NackReason: spec.NackReasonNone,
+		})
+	}
 }
 
 func (e *Engine) onNack(name enc.Name, reason uint64) {
@@ -327,10 +335,13 @@ func (e *Engine) onNack(name enc.Name, reason uint64) {
 		nodeName = name[:len(name)-1]
 	}
 
+	// The callbacks are invoked after the PIT lock is released: a callback may call Express.
+	nacked := make([]*pendInt, 0)
+
 	e.pitLock.Lock()
-	defer e.pitLock.Unlock()
 	n := e.pit.ExactMatch(nodeName)
 	if n == nil {
+		e.pitLock.Unlock()
 		e.log.WithField("name", name.String()).Warn("Received Nack for an unknown interest. Drop.")
 		return
 	}
@@ -342,10 +353,7 @@ func (e *Engine) onNack(name enc.Name, reason uint64) {
 		}
 		entry.timeoutCancel()
 		if entry.callback != nil {
-			entry.callback(ndn.ExpressCallbackArgs{
-				Result:     ndn.InterestResultNack,
-				NackReason: reason,
-			})
+			nacked = append(nacked, entry)
 		} else {
 			e.log.Fatalf("PIT has empty entry. This should not happen. Please check the implementation.")
 		}
@@ -356,6 +364,14 @@ func (e *Engine) onNack(name enc.Name, reason uint64) {
 	n.DeleteIf(func(lst []*pendInt) bool {
 		return len(lst) == 0
 	})
+	e.pitLock.Unlock()
+
+	for _, entry := range nacked {
+		entry.callback(ndn.ExpressCallbackArgs{
+			Result:     ndn.InterestResultNack,
+			NackReason: reason,
+		})
+	}
 }
 
 func (e *Engine) onError(err error) error {
@@ -421,8 +437,9 @@ func (e *Engine) Express(interest *ndn.EncodedInterest, callback ndn.ExpressCall
 
 		n := e.pit.MatchAlways(nodeName)
 		timeoutFunc := func() {
+			// The callbacks are invoked after the PIT lock is released: a callback may call Express.
+			expired := make([]*pendInt, 0)
 			e.pitLock.Lock()
-			defer e.pitLock.Unlock()
 			now := e.timer.Now()
 			lst := n.Value()
 			newLst := make([]*pendInt, 0, len(lst))
@@ -431,10 +448,7 @@ func (e *Engine) Express(interest *ndn.EncodedInterest, callback ndn.ExpressCall
 					newLst = append(newLst, entry)
 				} else {
 					if entry.callback != nil {
-						entry.callback(ndn.ExpressCallbackArgs{
-							Result:     ndn.InterestResultTimeout,
-							NackReason: spec.NackReasonNone,
-						})
+						expired = append(expired, entry)
 					} else {
 						e.log.Fatalf("PIT has empty entry. This should not happen. Please check the implementation.")
 					}
@@ -444,6 +458,14 @@ func (e *Engine) Express(interest *ndn.EncodedInterest, callback ndn.ExpressCall
 			n.DeleteIf(func(lst []*pendInt) bool {
 				return len(lst) == 0
 			})
+			e.pitLock.Unlock()
+
+			for _, entry := range expired {
+				entry.callback(ndn.ExpressCallbackArgs{
+					Result:     ndn.InterestResultTimeout,
+					NackReason: spec.NackReasonNone,
+				})
+			}
 		}
 		entry := &pendInt{
 			callback:      callback,
